@@ -712,6 +712,5 @@ OPEN_REWRITES = {
     'R12-1': 'pose list built from an anchor list walked with windows(2): R12.5 reads the push sites of LAND / TRACE / PARK',
     'R12-2': 'flags of a Cartesian extension by split_last + extend, RRT gap by find_map: R12.5 reads the per-item flag choice',
     'R13-2': 'ancestor walk by iter::successors, path assembly by rev().chain().collect(), orientation tested on the other tree: R13.3 reads the two walks, reverse and append',
-    'R15-4': 'Jacobian columns as [Vector6; 6] from array::from_fn assembled with from_columns: R15.1 reads the (position, rotation) pair and the two copy_from',
     'R17-2': 'source and target bases through orthonormal_basis(o, x, y) -> Option<Matrix3> and ok_or_else(..)?: R17.1/R17.2 read the two column triples',
 }
